@@ -210,6 +210,22 @@ class Index(PyModel):
             raise PyRaise("KeyError", None, repr(label))
         return hit[0]
 
+    @property
+    def loc(self):
+        return Loc(self)
+
+    def __ge__(self, o):
+        return self._arith(o, lambda a, b: _num_cmp(a, b) >= 0)
+
+    def __gt__(self, o):
+        return self._arith(o, lambda a, b: _num_cmp(a, b) > 0)
+
+    def __le__(self, o):
+        return self._arith(o, lambda a, b: _num_cmp(a, b) <= 0)
+
+    def __lt__(self, o):
+        return self._arith(o, lambda a, b: _num_cmp(a, b) < 0)
+
     def isin(self, values):
         vals = list(values.cells) if isinstance(values, (Series, ObjVec)) else list(values)
         return vec([any(cell_eq(t[0], v) for v in vals) for t in self.tuples])
@@ -225,7 +241,9 @@ class IndexType(PyModel):
         return isinstance(v, Index)
 
     def __call__(self, data, name=None, **k):
-        _only(k, (), 'pd.Index')
+        _only(k, ('tupleize_cols',), 'pd.Index')
+        if k.get("tupleize_cols", True) and any(isinstance(x, tuple) for x in (data.data if isinstance(data, SArr) else data)):
+            raise AnalysisAbort("pd.Index of tuples (a MultiIndex is made)")
         return Index([(x,) for x in (data.data if isinstance(data, SArr) else data)], [name])
 
 
@@ -515,6 +533,37 @@ class ILoc(PyModel):
                      Index([f.index.tuples[i] for i in ri], f.index.names, f.index.default and ri == list(range(len(f.rows))), f.index.multi), f._cols.name)
 
 
+def _num_cmp(a, b):
+    """-1 / 0 / 1 for two numbers of the exact domain (constants only: positions, counts)"""
+    a, b = rat(a), rat(b)
+    d = a - b
+    if not d.is_const():
+        raise AnalysisAbort("order comparison of symbolic cell values in a DataFrame")
+    c = d.const()
+    return (c > 0) - (c < 0)
+
+
+class Loc(PyModel):
+    """DataFrame.loc / Series.loc with a boolean selector: a boolean SERIES is aligned by index label, a boolean array / list is positional"""
+    def __init__(self, obj):
+        self.o = obj
+
+    def __getitem__(self, k):
+        if isinstance(k, tuple):
+            raise AnalysisAbort(".loc[rows, columns] is not modelled")
+        is_bool_series = isinstance(k, Series) and all(isinstance(c, bool) for c in k.cells)
+        is_bool_vec = (isinstance(k, SArr) and k.dtype == "bool") or (isinstance(k, list) and k and all(isinstance(c, bool) for c in k))
+        if not (is_bool_series or is_bool_vec):
+            raise AnalysisAbort(".loc with a selector that is not boolean is not modelled")
+        if isinstance(self.o, Frame):
+            mask = self.o._aligned_mask(k)
+            return self.o._take_rows([i for i, b in enumerate(mask) if b])
+        f = Frame(["v"], [[c] for c in self.o.cells], self.o.index if self.o.index is not None else None)
+        mask = f._aligned_mask(k)
+        keep = [i for i, b in enumerate(mask) if b]
+        return Series([self.o.cells[i] for i in keep], self.o.name, Index([f.index.tuples[i] for i in keep], f.index.names, False, f.index.multi))
+
+
 class Frame(PyModel):
     @property
     def iloc(self):
@@ -582,12 +631,68 @@ class Frame(PyModel):
             raise PyRaise("KeyError", None, repr(label))
         return hits[0]
 
+    def _aligned_mask(self, key):
+        """a boolean Series used to select rows is ALIGNED to the frame by index label (not taken by position); a plain boolean list /
+        array is positional.  -> list of bools, one per row"""
+        if isinstance(key, Series):
+            cells = [bool(c) for c in key.cells]
+            ki = key.index.tuples if key.index is not None else [(i,) for i in range(len(cells))]
+            if list(ki) == list(self.index.tuples):
+                return cells
+            if len(set(ki)) != len(ki):
+                raise AnalysisAbort("boolean Series indexer whose own index has repeated labels: alignment not modelled")
+            pos = {t: i for i, t in enumerate(ki)}
+            if any(t not in pos for t in self.index.tuples):
+                raise PyRaise("IndexingError", None, "Unalignable boolean Series provided as indexer (index of the boolean Series and of the indexed object do not match).")
+            return [cells[pos[t]] for t in self.index.tuples]
+        cells = list(key.data) if isinstance(key, SArr) else list(key)
+        if len(cells) != len(self.rows):
+            raise PyRaise("IndexError", None, f"Boolean index has wrong length: {len(cells)} instead of {len(self.rows)}")
+        return [bool(c != 0) if isinstance(c, Rat) else bool(c) for c in cells]
+
+    def _take_rows(self, keep):
+        return Frame(self._cols.labels, [self.rows[i] for i in keep], Index([self.index.tuples[i] for i in keep], self.index.names, False, self.index.multi), self._cols.name)
+
+    @property
+    def loc(self):
+        return Loc(self)
+
+    def _cmp(self, other, f):
+        if isinstance(other, (Frame, Series)):
+            raise AnalysisAbort("comparison of a DataFrame with a frame / series")
+        def one(c):
+            if is_nan(c):
+                return False
+            try:
+                return bool(f(rat(c) if isinstance(c, (Rat, int, float)) and not isinstance(c, bool) else c, other))
+            except TypeError as e:
+                raise PyRaise("TypeError", None, str(e))
+        return Frame(self._cols.labels, [[one(c) for c in r] for r in self.rows], self.index.copy(), self._cols.name)
+
+    def __ge__(self, o):
+        return self._cmp(o, lambda a, b: _num_cmp(a, b) >= 0)
+
+    def __gt__(self, o):
+        return self._cmp(o, lambda a, b: _num_cmp(a, b) > 0)
+
+    def __le__(self, o):
+        return self._cmp(o, lambda a, b: _num_cmp(a, b) <= 0)
+
+    def __lt__(self, o):
+        return self._cmp(o, lambda a, b: _num_cmp(a, b) < 0)
+
+    def all(self, axis=0, **k):
+        _only(k, (), 'DataFrame.all')
+        if axis in (1, "columns"):
+            return Series([all(bool(c) for c in r) for r in self.rows], None, self.index.copy())
+        return Series([all(bool(r[i]) for r in self.rows) for i in range(len(self._cols.labels))], None, Index([(l,) for l in self._cols.labels], [None]))
+
     def __getitem__(self, key):
         if isinstance(key, Series) and all(isinstance(c, bool) for c in key.cells):
             if len(key.cells) != len(self.rows):
                 raise PyRaise("ValueError", None, "Item wrong length")
-            keep = [i for i, b in enumerate(key.cells) if b]
-            return Frame(self._cols.labels, [self.rows[i] for i in keep], Index([self.index.tuples[i] for i in keep], self.index.names, False, self.index.multi), self._cols.name)
+            mask = self._aligned_mask(key)
+            return self._take_rows([i for i, b in enumerate(mask) if b])
         if isinstance(key, (list, Columns, ObjVec)):
             labs = list(key.labels) if isinstance(key, Columns) else list(key.cells) if isinstance(key, ObjVec) else list(key)
             idx = [self._ci(l) for l in labs]
@@ -598,6 +703,13 @@ class Frame(PyModel):
     def __setitem__(self, key, val):
         if isinstance(val, Series):
             cells = list(val.cells)
+            vi = val.index.tuples if val.index is not None else None
+            if vi is not None and list(vi) != list(self.index.tuples):
+                # a Series is assigned BY INDEX LABEL: rows whose label the series lacks get NaN
+                if len(set(vi)) != len(vi):
+                    raise PyRaise("ValueError", None, "cannot reindex on an axis with duplicate labels")
+                pos = {t: i for i, t in enumerate(vi)}
+                cells = [cells[pos[t]] if t in pos else NaN for t in self.index.tuples]
         elif isinstance(val, (SArr,)):
             cells = list(val.data)
         elif isinstance(val, (list, ObjVec)):
@@ -715,8 +827,13 @@ class Frame(PyModel):
     def values(self):
         return self.to_numpy()
 
-    def to_numpy(self, *a, **k):
+    def to_numpy(self, dtype=None, **k):
+        _only(k, ('copy',), 'DataFrame.to_numpy')
         flat = [c for r in self.rows for c in r]
+        if dtype is not None and "int" in getattr(dtype, "name", str(dtype)):
+            if any(is_nan(c) for c in flat):
+                raise PyRaise("ValueError", None, "Cannot convert non-finite values (NA or inf) to integer")
+            return SArr((len(self.rows), len(self._cols.labels)), [rat(c) for c in flat], dtype="int")
         if all(isinstance(c, (Rat, int, float)) and not isinstance(c, bool) or is_nan(c) for c in flat):
             return SArr((len(self.rows), len(self._cols.labels)), [Rat.sym("nan") if is_nan(c) else rat(c) for c in flat])
         return SArr((len(self.rows), len(self._cols.labels)), flat, dtype="object")
